@@ -114,6 +114,12 @@ def stepOld (g : Geo) : Op → Geo × Option (List (List Rat))
 def run (g : Geo) (ops : List Op) : Geo := ops.foldl (fun s op => (step s op).1) g
 def runOld (g : Geo) (ops : List Op) : Geo := ops.foldl (fun s op => (stepOld s op).1) g
 
+/-! ### the byte stream a coordinate definition feeds to the digest -/
+
+/-- `BaseDefinition.update_hash` for numpy coordinates: the bytes of `lons`, then the bytes of `lats`, then (for masked
+arrays) the bytes of the mask, in this order, to one streaming hash (`sha1.update` is concatenation: trusted) -/
+def swathFeed (lons lats : List Nat) (mask : Option (List Nat)) : List Nat := lons ++ (lats ++ mask.getD [])
+
 /-! ### driver -/
 open Wire
 
@@ -136,6 +142,13 @@ def handle : List String → Option String
     let (ext, tl) ← takeList num? rest
     if tl ≠ [] then none else
     some (" ".intercalate ((serializeArea ⟨[], h, w, ext⟩).items.map showItem))
+  | "feed" :: rest => do
+    -- feed <n> lon bytes… <n> lat bytes… <n> mask bytes…(n = 0: no mask)  → the byte stream that is hashed
+    let (lo, tl) ← takeList nat? rest
+    let (la, tl) ← takeList nat? tl
+    let (mk, tl) ← takeList nat? tl
+    if tl ≠ [] then none else
+    some (" ".intercalate ((swathFeed lo la (if mk.isEmpty then none else some mk)).map toString))
   | "areaeq" :: crs :: rest => do
     -- areaeq <crsEq> <h1> <w1> <n> num… <h2> <w2> <n> num…
     let crs ← bool? crs
